@@ -116,14 +116,15 @@ var blockNames = []string{"b", "c", "d"}
 var funcNames = []string{"f", "g"}
 
 type ctx struct {
-	sc      *scope
-	depth   int  // block nesting depth
-	inLoop  bool // directly inside a loop of this scope
-	inTry   bool // inside a try of the same function (nested try is not supported by the language)
-	inBlock bool
-	canRet  bool   // a return statement is allowed here (function body, or a block that is only called while its creator runs)
-	known   []bool // unused
-	isRoot  bool
+	sc        *scope
+	depth     int  // block nesting depth
+	inLoop    bool // directly inside a loop of this scope
+	inTry     bool // inside a try of the same function (nested try is not supported by the language)
+	tryInLoop bool // inside a try that is inside a loop of this scope: break / continue would leave the try (not generated)
+	inBlock   bool
+	canRet    bool   // a return statement is allowed here (function body, or a block that is only called while its creator runs)
+	known     []bool // unused
+	isRoot    bool
 }
 
 func (g *gen) pick(l []string) string { return l[g.r.IntN(len(l))] }
@@ -191,6 +192,14 @@ func (g *gen) newBlock(c *ctx, name string, allowReturn bool) *expr {
 	}
 	n := 1 + g.r.IntN(3)
 	sc.body = g.stmts(bc, n)
+	if allowReturn && g.r.IntN(2) == 0 {
+		// a conditional return from the function that created the block
+		g.features["return-in-block"] = true
+		ret := &stmt{kind: "if", e: &expr{kind: "bin", op: g.pick([]string{"<", "is", ">"}), kids: []*expr{g.intExpr(bc, 1), g.intExpr(bc, 1)}},
+			body: []*stmt{{kind: "return", e: g.intExpr(bc, 1)}}}
+		at := g.r.IntN(len(sc.body) + 1)
+		sc.body = append(sc.body[:at:at], append([]*stmt{ret}, sc.body[at:]...)...)
+	}
 	// the value of a block is its last statement: always an integer expression
 	sc.body = append(sc.body, &stmt{kind: "expr", e: g.intExpr(bc, 1)})
 	return &expr{kind: "block", sc: sc}
@@ -216,7 +225,14 @@ func (g *gen) stmts(c *ctx, n int) []*stmt {
 	var out []*stmt
 	for i := 0; i < n && g.budget > 0; i++ {
 		g.budget--
-		out = append(out, g.stmt(c))
+		st := g.stmt(c)
+		out = append(out, st)
+		if st.kind == "assign" && st.name == "g" && g.r.IntN(2) == 0 {
+			// use the maker right away: the returned block escapes the call that created it
+			g.features["call-maker"] = true
+			g.defined["b"] = true
+			out = append(out, &stmt{kind: "assign", name: "b", e: g.callExpr(c, "g", 2)})
+		}
 	}
 	return out
 }
@@ -287,6 +303,7 @@ func (g *gen) stmt(c *ctx) *stmt {
 			g.features["loop"] = true
 			lc := *c
 			lc.inLoop = true
+			lc.tryInLoop = false
 			kind := "for"
 			if g.r.IntN(3) == 0 {
 				kind = "forin"
@@ -296,6 +313,9 @@ func (g *gen) stmt(c *ctx) *stmt {
 			s.body = g.stmts(&lc, 1+g.r.IntN(2))
 			return s
 		case x < 21:
+			if c.tryInLoop {
+				continue
+			}
 			if c.inLoop {
 				g.features["loop-break-continue"] = true
 				return &stmt{kind: g.pick([]string{"break", "continue"}), text: "loop"}
@@ -313,6 +333,7 @@ func (g *gen) stmt(c *ctx) *stmt {
 			s := &stmt{kind: "try", evar: "e"}
 			tc := *c
 			tc.inTry = true
+			tc.tryInLoop = c.inLoop
 			s.body = g.stmts(&tc, 1+g.r.IntN(2))
 			s.els = []*stmt{{kind: "log", e: &expr{kind: "var", name: "e"}}}
 			return s
@@ -342,14 +363,19 @@ func (g *gen) stmt(c *ctx) *stmt {
 // ---------------------------------------------------------------- printer
 
 type printer struct {
-	sb     strings.Builder
-	forced bool // every block reads the dummy variable of its function
+	sb      strings.Builder
+	forced  bool // every block reads the dummy variable of its function
+	noconst bool // literals are written (N + Suneido.vzero) and function variables are assigned twice: nothing is a compile-time constant
 }
 
 func (p *printer) expr(e *expr) {
 	switch e.kind {
 	case "lit":
-		fmt.Fprint(&p.sb, e.n)
+		if p.noconst {
+			fmt.Fprintf(&p.sb, "(%d + Suneido.vzero)", e.n)
+		} else {
+			fmt.Fprint(&p.sb, e.n)
+		}
 	case "var":
 		p.sb.WriteString(e.name)
 	case "bin":
@@ -399,6 +425,9 @@ func (p *printer) stmt(s *stmt) {
 	case "assign":
 		p.sb.WriteString(s.name + " = ")
 		p.expr(s.e)
+		if p.noconst && s.e.kind == "func" {
+			p.sb.WriteString("\n" + s.name + " = " + s.name) // a second assignment: not a single-assignment constant
+		}
 	case "opassign":
 		p.sb.WriteString(s.name + " " + s.op + " ")
 		p.expr(s.e)
@@ -470,13 +499,18 @@ return 0
 }
 `
 
-func source(root *scope, forced bool) string {
-	p := &printer{forced: forced}
+func source(root *scope, forced bool) string { return source2(root, forced, false) }
+
+func source2(root *scope, forced, noconst bool) string {
+	p := &printer{forced: forced, noconst: noconst}
 	p.sb.WriteString("function () {\n")
 	if forced {
 		p.sb.WriteString("zq = 0\n")
 	}
 	p.sb.WriteString(eachSrc)
+	if noconst {
+		p.sb.WriteString("each = each\n")
+	}
 	p.stmts(root.body)
 	p.sb.WriteString("}")
 	return p.sb.String()
@@ -980,7 +1014,7 @@ func AsStrOrDisplay(v Value) string {
 }
 
 func setup() {
-	resetLog = compile.Constant("function () { Suneido.vlog = Object() }")
+	resetLog = compile.Constant("function () { Suneido.vlog = Object(); Suneido.vzero = 0 }")
 	getLog = compile.Constant("function () { return Suneido.vlog }")
 }
 
@@ -1032,7 +1066,7 @@ func TestVerifC29(t *testing.T) {
 		"programs whose model run exceeds 20000 steps are skipped")
 	defer rep.Finish()
 	setup()
-	n := vk.N(6000, 400000)
+	n := vk.N(12000, 600000)
 	for i := 0; i < n; i++ {
 		r := vk.RandFor(29, i)
 		root, features := generate(r)
@@ -1083,7 +1117,13 @@ func TestVerifC29(t *testing.T) {
 					what = "log"
 				}
 				cls := "C29/differs-from-documented-model/" + variant + "/" + what
-				rep.Violate(cls, s, map[string]any{"source": s, "model": want.String(), "real": got.String()})
+				detail := map[string]any{"source": s, "model": want.String(), "real": got.String()}
+				// root cause probe: the same program with no compile-time constant variables (nothing to propagate, no branch removed)
+				if nc, cerr2 := real(source2(root, forced, true)); cerr2 == "" && nc == want {
+					cls = "C29/scoping-changed-by-constant-propagation/" + variant
+					detail["note"] = "the program agrees with the model when nothing in it is a compile-time constant (literals written (N + Suneido.vzero), function variables assigned twice)"
+				}
+				rep.Violate(cls, s, detail)
 			}
 		}
 		if rep.WantSample() && blocks >= 2 && shared >= 1 && i%11 == 0 {
